@@ -20,8 +20,8 @@ FILE_PROPS = {
     "message.go": ["C02", "C03", "C01", "C08", "C19", "C20"],
     "attributes.go": ["C02", "C01", "C03"],
     "helpers.go": ["C09", "C02", "C03", "C07"],
-    "integrity.go": ["C04", "C07", "C09", "C03"],
-    "fingerprint.go": ["C05", "C07", "C03"],
+    "integrity.go": ["C04", "C07", "C09", "C03", "C20"],
+    "fingerprint.go": ["C05", "C07", "C03", "C20"],
     "checks.go": ["C09", "C04", "C05", "C07"],
     "xoraddr.go": ["C06", "C07", "C09", "C20"],
     "addr.go": ["C06", "C07", "C09", "C20"],
